@@ -207,11 +207,17 @@ def run(chk):
     chk.touched([f])
     ladder_signed, ladder_unsigned = extract_ladders(prog, f)
     ncase = 0
-    for (uns, lng, ll), base10, mag in itertools.product([(0, 0, 0), (1, 0, 0), (0, 1, 0), (1, 1, 0), (0, 1, 1), (1, 1, 1)], [True, False], [0, 1, 2, 3]):
+    # the (base, prefixed) argument pairs buildInt is actually called with, taken from Num()
+    nums0 = [g for g in members if g["name"] == "Num"]
+    r4.anchor(nums0, "Num")
+    call_forms = sorted(set(v for v in num_bases(prog, nums0[0]).values() if v is not None and v[0] is not None))
+    r4.anchor(len(call_forms) >= 2, "buildInt call forms in Num() (found %s)" % (call_forms,))
+    for (uns, lng, ll), (base, prefixed), mag in itertools.product([(0, 0, 0), (1, 0, 0), (0, 1, 0), (1, 1, 0), (0, 1, 1), (1, 1, 1)], call_forms, [0, 1, 2, 3]):
+        base10 = base == 10
         want = cpp_literal_type(uns, lng, ll, base10, mag)
         if want is None:
             continue          # ill-formed in C++ (decimal, no u, beyond long long): outside the property's quantifier
-        env = {"unsigned_": bool(uns), "long_": bool(lng), "longlong_": bool(ll), "base10": base10, "mag": mag}
+        env = {"unsigned_": bool(uns), "long_": bool(lng), "longlong_": bool(ll), "base10": base10, "base": base, "prefixed": bool(prefixed), "mag": mag}
         def res(call, f=f):
             d = prog.decl(f, call.get("fn")) if call.get("fn") is not None else None
             c = (d or {}).get("cls", "")
@@ -219,7 +225,7 @@ def run(chk):
         got = eval_ladder(ladder_signed if mag < 3 else ladder_unsigned, env, res)
         ncase += 1
         sfx = ("u" if uns else "") + ("ll" if ll else ("l" if lng else ""))
-        r4.ob("buildInt/%s literal, suffix '%s', magnitude class %d -> %s" % ("decimal" if base10 else "hex/octal/binary", sfx, mag, want), got == want, f.where, f["q"],
+        r4.ob("buildInt/%s literal, suffix '%s', magnitude class %d -> %s" % ({10: "decimal", 16: "hex", 8: "octal", 2: "binary"}.get(base, "base %s" % base), sfx, mag, want), got == want, f.where, f["q"],
               "typed %s, C++ gives %s" % (got, want))
     bfs = [g for g in members if g["name"] == "buildFloat"]
     r4.anchor(bfs, "buildFloat")
@@ -235,7 +241,7 @@ def run(chk):
     want_b = {"Hex_": (16, True), "Binary_": (2, True), "leading0": (8, False), "other": (10, False)}
     for k, v in want_b.items():
         r4.ob("Num/%s -> buildInt(base %d, prefixed=%s)" % (k, v[0], v[1]), bases.get(k) == v, g.where, g["q"], "got %s" % (bases.get(k),))
-    r4.require(30, "ladder cases")
+    r4.require(60, "ladder cases")
 
 
 # =============================================================================== helpers
@@ -325,10 +331,11 @@ def eval_cond(e, env, res=None):
         return eval_cond(e["lhs"], env, res) or eval_cond(e["rhs"], env, res)
     if k == "ref" and e.get("name") in ("unsigned_", "long_", "longlong_"):
         return env[e["name"]]
+    if k == "ref" and e.get("rk") == "param" and e.get("name") == "prefixed":
+        return env["prefixed"]
     if k == "binop" and e.get("op") in ("!=", "==") and strip_casts(e["lhs"]).get("name") == "base":
         v = strip_casts(e["rhs"]).get("v")
-        is10 = env["base10"]
-        return (is10 != (v == 10)) if e["op"] == "!=" else (is10 == (v == 10))
+        return (env["base"] != v) if e["op"] == "!=" else (env["base"] == v)
     if k == "binop" and e.get("op") in (">=", "<="):
         # u >= numeric_limits<T>::min()  (always true for literals: non-negative)  /  u <= numeric_limits<T>::max()
         r = strip_casts(e["rhs"])
